@@ -40,6 +40,8 @@ struct Pair {
         key = o.key; idx = o.idx; writer = std::this_thread::get_id(); ++writes;
         return *this;
     }
+    // natural order (ascending key); the sorts under test must use the comparator they are given, never this one
+    friend bool operator<(const Pair& a, const Pair& b) { return a.key < b.key; }
 };
 
 struct MtLedger {
@@ -77,6 +79,8 @@ struct Trk {
         delete heap; heap = nullptr;
     }
     int key() const { chk(*this); return *heap; }
+    // natural order (ascending key); the sorts under test must use the comparator they are given, never this one
+    friend bool operator<(const Trk& a, const Trk& b) { return a.key() < b.key(); }
 };
 
 int key_of(const int& x) { return x; }
